@@ -412,7 +412,8 @@ def main(argv=None):
 
 if __name__ == "__main__":
     try:
-        rc = main()
+        with core.ScratchBase():
+            rc = main()
     except HarnessError as e:
         print(f"HARNESS-ERROR: {e}")
         rc = 2
